@@ -229,7 +229,7 @@ def productions(res_list):
             m, owner = st["m"], st["owner"]
             out["self:%s:%s" % (owner.kind, m.self_kind[0] if m.self_kind else "static")] += 1
             if sum(1 for _, pt in m.params if pt[0] == "cb") > 1:
-                out["param:two callbacks in one method", "cbarg:Box<opaque>"] += 1
+                out["param:two callbacks in one method"] += 1
             for pn, pt in m.params:
                 ty_productions(prog, pt, "param", out)
                 if pn in getattr(m, "dip_params", ()):
